@@ -487,7 +487,7 @@ def e2e_case(ck: Check, camp, case: Case, cfg: Cfg, model: str, opts: dict) -> N
                 cl["trigger"] = "v2_snake_after_capitalise"
         elif (isinstance(e, ValueError) and "'mro'" in str(e) and base["trigger"] == "none"
               and model == "pydantic_v2.BaseModel" and cfg.snake and cfg.cap):
-            cl["trigger"] = "v2_snake_after_capitalise_mro"  # known finding C09-F4: the re-lowered name is `mro`
+            cl["trigger"] = "v2_snake_after_capitalise_mro"  # known finding C09-F7: the re-lowered name is `mro`
         ck.fail(cl, inp, f"importing the emitted module raised {type(e).__name__}: {str(e)[:200]}")
         return
     try:
